@@ -24,6 +24,18 @@ NEEDS = {
  "C18-a": "a struct field read inside a block nested at depth two or more",
  "C19-a": "an extension leaf inside a block nested two or more levels deep",
  "C20-a": "a loop directly in the body of an if that is itself inside a loop (serialisation of the global stack fails)",
+ "C01-b": "a let in a nested block re-declaring an outer name with another type or mutability, then used in that block (lookup walks the parent chain first)",
+ "C02-b": "a parameter or let that shadows a global constant of a different type and is read where the type matters (constant looked up before values)",
+ "C05-b": "an if nested in a loop (labels two levels below the function block), followed by a sibling if at function level (label names registered in the direct parent only)",
+ "C09-b": "a statement-level call of a function returning () after another register-writing instruction (no register allocated for void calls)",
+ "C10-b": "a loop whose body ends with continue and contains a break in a nested if (loop tail skipped after continue)",
+ "C11-b": "a return nested two or more blocks deep with no depth-one nested return before it (set_return raises the flag on the direct parent only)",
+ "C13-b": "a function whose declaration was rejected (array type in the signature) and whose body has a successful top-level return (HashMap index panic)",
+ "C14-b": "an if with both else and else-if (B10) and a fault in its condition or body (IfElseDuplicated reported after them)",
+ "C15-b": "two struct declarations with the same name and different attributes (insert-then-check overwrites the first)",
+ "C16-b": "a call whose argument fails to analyse un-declares the callee for bodies analysed later",
+ "C17-b": "an if with a logic condition in a function analysed after an earlier body recorded an error (global error list consulted)",
+ "C18-b": "a non-empty plain else body (analysed in the if-body's block state)",
 }
 def sh(cmd, **kw):
     return subprocess.run(cmd, shell=True, stdout=subprocess.PIPE, stderr=subprocess.STDOUT, text=True, **kw).stdout
